@@ -4,7 +4,9 @@ use crate::conv::*;
 use crate::corpus::registry::{self as reg, DecOut};
 use crate::ctx::{catch, hex, Ctx};
 use crate::gen::types::*;
-use crate::model::wire::{decode, Decoded};
+use crate::gen::upgrade::Upgrader;
+use crate::gen::values::ValGen;
+use crate::model::wire::{decode, encodable, encode, Decoded, EncOpts};
 use crate::model::*;
 use crate::rng::{hash_str, Rng};
 use candid::de::IDLDeserialize;
@@ -59,6 +61,14 @@ fn sort_vecs(v: &RValue) -> RValue {
 trait Target {
     fn run(&self, bytes: &[u8], c: &DecoderConfig) -> (Out, Option<usize>, Option<usize>, u64);
     fn describe(&self) -> String;
+    /// the same decode through another public entry point: (entry point, result, cost when it reports one)
+    fn alt(&self, _rng: &mut Rng, _bytes: &[u8], _c: &DecoderConfig) -> Option<(String, Out, Option<(Option<usize>, Option<usize>)>)> {
+        None
+    }
+    /// the const-generic quota wrappers: (entry point, configuration they stand for, Ok(values) / Err(panic text))
+    fn const_quota(&self, _rng: &mut Rng, _bytes: &[u8]) -> Option<(String, DecoderConfig, Result<Vec<RValue>, String>)> {
+        None
+    }
 }
 
 struct Native(usize);
@@ -79,6 +89,39 @@ impl Target for Native {
     }
     fn describe(&self) -> String {
         reg::with(self.0, |t| t.name())
+    }
+    fn alt(&self, rng: &mut Rng, bytes: &[u8], c: &DecoderConfig) -> Option<(String, Out, Option<(Option<usize>, Option<usize>)>)> {
+        let api = 1 + rng.below(5) as u8;
+        let name = ["", "decode_one_with_config", "decode_args_with_config", "decode_args_with_config_debug", "Decode!([config])", "Decode!(@Debug [config])"][api as usize];
+        let hashy = self.describe().contains("Hash");
+        Some(match reg::with(self.0, |t| t.decode_via(api, bytes, c)) {
+            DecOut::Ok { model, cost, .. } => {
+                let model = if hashy { sort_vecs(&model) } else { model };
+                let cost = if api == 3 || api == 5 { Some((cost.decoding_quota, cost.skipping_quota)) } else { None };
+                (name.to_string(), Out::Ok(vec![model]), cost)
+            }
+            DecOut::Err(e) => (name.to_string(), classify_err(&e), None),
+            DecOut::Panic(p) => (name.to_string(), Out::Panic(p.sig()), None),
+        })
+    }
+    fn const_quota(&self, rng: &mut Rng, bytes: &[u8]) -> Option<(String, DecoderConfig, Result<Vec<RValue>, String>)> {
+        let which = rng.below(6) as u8;
+        let name = [
+            "decode_one_with_decoding_quota",
+            "decode_one_with_skipping_quota",
+            "decode_one_with_decoding_and_skipping_quota",
+            "decode_args_with_decoding_quota",
+            "decode_args_with_skipping_quota",
+            "decode_args_with_decoding_and_skipping_quota",
+        ][which as usize];
+        let c = match which % 3 {
+            0 => cfg(Some(reg::CONST_DQ), None),
+            1 => cfg(None, Some(reg::CONST_SQ)),
+            _ => cfg(Some(reg::CONST_DQ), Some(reg::CONST_SQ)),
+        };
+        let hashy = self.describe().contains("Hash");
+        let r = reg::with(self.0, |t| t.decode_const_quota(which, bytes)).map(|m| vec![if hashy { sort_vecs(&m) } else { m }]);
+        Some((name.to_string(), c, r))
     }
 }
 
@@ -109,6 +152,15 @@ impl Target for Untyped {
     }
     fn describe(&self) -> String {
         self.label.clone()
+    }
+    fn alt(&self, _rng: &mut Rng, bytes: &[u8], c: &DecoderConfig) -> Option<(String, Out, Option<(Option<usize>, Option<usize>)>)> {
+        let r = catch(|| candid::IDLArgs::from_bytes_with_types_with_config(bytes, &self.env, &self.types, c).map_err(|e| format!("{e:?}")));
+        let out = match r {
+            Err(p) => Out::Panic(p.sig()),
+            Ok(Err(e)) => classify_err(&e),
+            Ok(Ok(a)) => Out::Ok(a.args.iter().map(model_value).collect()),
+        };
+        Some(("IDLArgs::from_bytes_with_types_with_config".into(), out, None))
     }
 }
 
@@ -235,6 +287,42 @@ fn judge(ctx: &mut Ctx, rng: &mut Rng, tgt: &dyn Target, bytes: &[u8], d: &Decod
             ),
         }
     }
+    // the other public entry points that take a configuration: same result, same cost, same quota errors
+    let below = (m.cd.saturating_sub(1 + rng.usize(3)), m.cs + 3);
+    for (a, b) in [(HUGE, HUGE), (m.cd, m.cs), below, (m.cd + 3, m.cs.saturating_sub(1))] {
+        let c = cfg(Some(a), Some(b));
+        let Some((api, ra, cost)) = tgt.alt(rng, bytes, &c) else { break };
+        let (rr, cdr, csr, _) = tgt.run(bytes, &c);
+        ctx.count(&format!("cover:entry-point:{api}"));
+        if ra != rr {
+            ctx.violation(
+                &format!("entry-points-disagree|{api}|{fam}"),
+                &format!("quotas ({a},{b}): {api} gives {ra:?} but IDLDeserialize (get_value + done) gives {rr:?}"),
+                input(),
+            );
+        } else if let Some((cda, csa)) = cost {
+            if matches!(ra, Out::Ok(_)) && (cda != cdr || csa != csr) {
+                ctx.violation(
+                    &format!("entry-points-disagree|cost|{api}|{fam}"),
+                    &format!("quotas ({a},{b}): {api} reports cost ({cda:?},{csa:?}) but IDLDeserialize reports ({cdr:?},{csr:?})"),
+                    input(),
+                );
+            }
+        }
+    }
+    if let Some((api, c, got)) = tgt.const_quota(rng, bytes) {
+        let (rr, ..) = tgt.run(bytes, &c);
+        ctx.count(&format!("cover:entry-point:{api}"));
+        match (&got, &rr) {
+            (Ok(v), Out::Ok(w)) if v == w => ctx.count("agree:const-quota-wrapper:ok"),
+            (Err(msg), Out::Quota(which)) if msg.contains("unwrap") && msg.to_lowercase().contains(&which[..4]) => ctx.count("agree:const-quota-wrapper:quota-error"),
+            _ => ctx.violation(
+                &format!("entry-points-disagree|{api}|{fam}"),
+                &format!("{api} (const quotas {:?}/{:?}) gives {got:?} but the same quotas through DecoderConfig give {rr:?}", c.decoding_quota, c.skipping_quota),
+                input(),
+            ),
+        }
+    }
     // only one of the quotas set
     let (r, cd3, cs3, _) = tgt.run(bytes, &cfg(Some(m.cd), None));
     if r != r0 || cd3 != Some(m.cd) || cs3.is_some() {
@@ -274,10 +362,10 @@ fn judge(ctx: &mut Ctx, rng: &mut Rng, tgt: &dyn Target, bytes: &[u8], d: &Decod
     for (i, (t, v)) in d.types.iter().zip(d.values.iter()).enumerate() {
         let c = doc_cost(&d.env, t, v, table_len);
         // surplus arguments, untyped decoding and values read at `reserved` are skipped: 50x
-        let penal = all_skipped || (skipped_lb > 0 && i > 0) || label.contains("Reserved");
+        let penal = all_skipped || (skipped_lb > 0 && i > 0) || label.contains("Reserved") || fam == "native-related-wire";
         // a mismatched option is skipped (50x) after the failed attempt, and a value below k enclosing options can be
         // skipped once per enclosing option that fails: the documented model, applied literally, charges every one
-        let refail = if all_skipped { 1 + opt_depth(v) } else { 1 };
+        let refail = if all_skipped || fam == "native-related-wire" { 1 + opt_depth(v) } else { 1 };
         model += if penal { 50 * c * refail } else { c };
     }
     // constant per-message overheads (a failed opt costs 10, times 50 when skipping) dominate tiny messages:
@@ -314,7 +402,7 @@ fn opt_depth(v: &RValue) -> u64 {
 pub fn run(ctx: &mut Ctx) {
     let n_types = reg::len();
     // native targets: a message of T (+ surplus arguments of other types)
-    ctx.cases("native", 0.5, |ctx, rng| {
+    ctx.cases("native", 0.35, |ctx, rng| {
         let i = rng.usize(n_types);
         let fuel = *rng.pick(&[2i64, 15, 60]);
         let surplus = rng.usize(3);
@@ -347,7 +435,33 @@ pub fn run(ctx: &mut Ctx) {
     });
     // untyped targets: wire/expected pairs incl. surplus fields, mismatched options, references
     let tcfg = TypeCfg::default();
-    ctx.cases("untyped", 0.5, |ctx, rng| {
+    // native targets reading a message of a *related* wire type (fields added or dropped, values made optional, nat for
+    // int ...): the native decoder skips surplus fields and mismatched options itself
+    let tcfg_refs = TypeCfg { refs: true, ..TypeCfg::default() };
+    ctx.cases("native-related-wire", 0.2, |ctx, rng| {
+        let i = rng.usize(n_types);
+        let (tenv, tt) = reg::with(i, |t| t.rtype());
+        let mut up = Upgrader::new(&tcfg_refs);
+        up.edit_pct = 30;
+        up.illegal_pct = 50;
+        let (wenv, wts) = up.up_env(rng, &tenv, std::slice::from_ref(&tt));
+        let wt = wts[0].clone();
+        if !encodable(&wenv, &wt) || wenv.0.iter().any(|d| wenv.unfold(d).is_none()) {
+            return;
+        }
+        let vg = ValGen::new(&wenv);
+        let mut fuel = *rng.pick(&[5i64, 25, 60]);
+        let Some(v) = vg.gen(rng, &wt, &mut fuel) else { return };
+        let Ok(bytes) = encode(&wenv, std::slice::from_ref(&wt), std::slice::from_ref(&v), &EncOpts::default(), None) else { return };
+        let Ok(d) = decode(&bytes) else { return };
+        let tgt = Native(i);
+        judge(ctx, rng, &tgt, &bytes, &d, 0, false, "native-related-wire");
+        if up.edits > 0 {
+            ctx.count("cover:native-wire-type-differs");
+        }
+        ctx.nontrivial(hash_str(&format!("{}|{}", tgt.describe(), shape(&wenv, &wt, 4))));
+    });
+    ctx.cases("untyped", 0.45, |ctx, rng| {
         let Some(wc) = gen_wire_case(rng, &tcfg, 3, 40, true) else { return };
         let (eenv, ets, kind) = gen_expected(rng, &tcfg, &wc);
         let (cenv, cts) = candid_side(&eenv, &ets, None);
